@@ -103,6 +103,7 @@ var atomClass = [][3]string{
 	{"assets.withdraw", "UpdateStakerAssetState TotalDepositAmount error", "UpdateAssetValue(TotalDepositAmount)"},
 	{"assets.withdraw", "UpdateStakerAssetState CanWithdrawAmountOrWantChangeValue error", "UpdateAssetValue(WithdrawableAmount)"},
 	{"assets.withdrawNST", "remove unexist validator", "exists||amount.IsPositive"},
+	{"assets.withdraw", "assetID:", "UpdateAssetValue(StakingTotalAmount)"},
 	{"assets.registerOrUpdateClientChain", "", "ClientChainInfoFromInputs"},
 	{"assets.registerToken", "already exists", "IsStakingAsset(already)"},
 	{"assets.registerToken", "the decimal is greater than the MaxDecimal", "Decimals>MaxDecimal"},
@@ -150,6 +151,7 @@ var atomClass = [][3]string{
 	{"oracle.UpdateNSTByBalanceChange", "staker list is empty", "len(StakerAddrs)==0"},
 	{"oracle.UpdateNSTByBalanceChange", "length of change value", "parseBalanceChange"},
 	{"oracle.UpdateNSTByBalanceChange", "effective balance should never", "balance range(2)"},
+	{"oracle.UpdateNSTByBalanceChange", "stakerInfo does not exist", "stakerInfo(2)!=nil"},
 	{"reward.claimReward", "", "RewardForWithdraw"},
 	{"avs.registerOperatorToAVS", "avs does not exist", "IsAVS"},
 	{"avs.deregisterOperatorFromAVS", "avs does not exist", "IsAVS"},
@@ -481,21 +483,12 @@ func (h *atomH) step() {
 			}
 		}
 		h.evm("assets.depositNST", gw, xbAssetsAddr, h.abis.assets, "depositNST", h.chainID(false), pk, sb, amt)
-	case 3: // withdrawNST — the random stream only withdraws for stakers still in the oracle's list
-		// (the other case is the F-09a trigger, exercised by the directed scenario)
+	case 3: // withdrawNST — also for stakers that already left the oracle's list while x/assets still holds a
+		// withdrawable remainder: the oracle side then refuses after the booking (F-09a, repaired: must be clean)
 		s := h.stakers[r.Intn(len(h.stakers))]
-		inList := false
-		for _, a := range c.App.OracleKeeper.GetStakerList(c.Ctx, AssetIDOf(c.LzID, nstAddrHex)).StakerAddrs {
-			if strings.EqualFold(a, s.Eth.Hex()) {
-				inList = true
-			}
-		}
 		amt := h.amount(18)
 		if bad {
 			amt = h.badAmount()
-		}
-		if !inList && !bad {
-			amt = big.NewInt(0) // malformed instead of the known trigger
 		}
 		pk := []byte(fmt.Sprintf("validator-pubkey-%02d", r.Intn(4)))
 		h.evm("assets.withdrawNST", gw, xbAssetsAddr, h.abis.assets, "withdrawNST", h.chainID(false), pk, pad32(s.Eth.Bytes()), amt)
@@ -573,9 +566,9 @@ func (h *atomH) step() {
 			}
 		}
 		h.evm("assets.registerOrUpdateClientChain", gw, xbAssetsAddr, h.abis.assets, "registerOrUpdateClientChain", id, al, name, meta, "sig")
-	case 9: // registerToken — decimals > 18 is the F-09b trigger, kept out of the random stream
+	case 9: // registerToken — decimals > 18 are refused by SetStakingAssetInfo (F-09b, repaired: must be clean)
 		addr := pad32(NewActor(c.Cfg.Seed, "token", r.Intn(4)).Eth.Bytes())
-		dec, name, meta, oi := uint8(r.Intn(19)), "TKX", "meta", fmt.Sprintf("TKX%d,chainX,8", r.Intn(3))
+		dec, name, meta, oi := uint8(r.Intn(24)), "TKX", "meta", fmt.Sprintf("TKX%d,chainX,8", r.Intn(3))
 		cid := h.chainID(false)
 		if bad {
 			switch r.Intn(5) {
@@ -646,11 +639,17 @@ func (h *atomH) step() {
 			func(ctx sdk.Context) error { return c.App.OperatorKeeper.Slash(ctx, p) }) == "ok" {
 			h.slashOK = append(h.slashOK, atomSlash{op: p.Operator, id: p.SlashID})
 		}
-	case 14: // keeper: UpdateNSTByBalanceChange with malformed raw data (rejected before the loop)
-		// (a run of the per-staker loop that fails mid-way is F-09d, exercised by the directed scenario)
+	case 14: // keeper: UpdateNSTByBalanceChange with malformed raw data (rejected before the loop) or with a run of
+		// the per-staker loop that may be refused mid-way (F-09d, repaired: the earlier stakers must not stay updated)
 		raw := make([]byte, r.Intn(31))
-		if len(c.App.OracleKeeper.GetStakerList(c.Ctx, AssetIDOf(c.LzID, nstAddrHex)).StakerAddrs) == 0 && r.Bool() {
-			raw = make([]byte, 32+r.Intn(3))
+		if r.Bool() {
+			raw = make([]byte, 32, 36)
+			if len(c.App.OracleKeeper.GetStakerList(c.Ctx, AssetIDOf(c.LzID, nstAddrHex)).StakerAddrs) > 0 && r.Bool() {
+				raw[0] = 0x80                       // staker 0 flagged
+				raw = append(raw, 0x18, 0x00, 0x00) // length 1, negative, value bit 0: change -1
+			} else {
+				raw = append(raw, 0, 0)
+			}
 		}
 		h.keeper("oracle.UpdateNSTByBalanceChange", fmt.Sprintf("keeper UpdateNSTByBalanceChange raw=%x", raw),
 			func(ctx sdk.Context) error {
@@ -749,12 +748,12 @@ func (h *atomH) directed() {
 	}
 	st := pad32(h.stakers[0].Eth.Bytes())
 	pk := []byte("validator-pubkey-00")
-	// F-09a: deposit 40 ETH (oracle counts 32), withdraw 32 (staker leaves the oracle's list, 8 remain
+	// F-09a (repaired, kept as a regression scenario; sig unchanged): deposit 40 ETH (oracle counts 32), withdraw 32 (staker leaves the oracle's list, 8 remain
 	// withdrawable in x/assets), withdraw 1 more: booked in x/assets, then refused by the oracle.
 	h.evm("assets.depositNST", gw, xbAssetsAddr, h.abis.assets, "depositNST", uint32(c.LzID), pk, st, u18(40))
 	h.evm("assets.withdrawNST", gw, xbAssetsAddr, h.abis.assets, "withdrawNST", uint32(c.LzID), pk, st, u18(32))
 	h.evm("assets.withdrawNST", gw, xbAssetsAddr, h.abis.assets, "withdrawNST", uint32(c.LzID), pk, st, u18(1))
-	// F-09b: registerToken with 19 decimals: oracle token + feeder registered, then the asset is refused.
+	// F-09b (repaired, regression scenario): registerToken with 19 decimals: oracle token + feeder registered, then the asset is refused.
 	h.evm("assets.registerToken", gw, xbAssetsAddr, h.abis.assets, "registerToken", uint32(c.LzID),
 		pad32(hexToBytes("0x2222222222222222222222222222222222222222")), uint8(19), "BAD", "meta", "BADTOKEN,badchain,8")
 	// F-04a (fixed by b01075b, kept as a regression scenario): the same slash id twice / wrong slash
@@ -776,7 +775,7 @@ func (h *atomH) directed() {
 	// createTask refused after the owner check (the AVS has no voting power) and at the owner check: no task id may be consumed
 	h.evm("avs.createTask", h.others[0].Eth, xbAvsAddr, h.abis.avs, "createTask", h.others[0].Eth, "task", []byte("task-hash"), uint64(2), uint64(2), uint64(60), uint64(1))
 	h.evm("avs.createTask", h.others[0].Eth, xbAvsAddr, h.abis.avs, "createTask", h.stakers[0].Eth, "task", []byte("task-hash"), uint64(2), uint64(2), uint64(60), uint64(1))
-	// F-09d: two NST stakers; balance change flags staker 0 (-1) and staker 1 with a change that takes
+	// F-09d (repaired, regression scenario): two NST stakers; balance change flags staker 0 (-1) and staker 1 with a change that takes
 	// its balance out of range: staker 0 is updated and stored, then the call fails.
 	st1 := pad32(h.stakers[1].Eth.Bytes())
 	h.evm("assets.depositNST", gw, xbAssetsAddr, h.abis.assets, "depositNST", uint32(c.LzID), pk, st, u18(32))
